@@ -125,6 +125,10 @@ func buildAbstract(c fmtCase, trace string) (main M, imported M) {
 		t["exportas"] = "MAIN_OUT"
 	}
 	doc := M{"tasks": M{"main": t, "dep": M{"command": L{"/bin/echo dep >> " + trace}, "description": "a dependency // with two slashes\tand a tab"}}}
+	// a multi-line value that ends in a line break, as the LAST value of the YAML file when there are
+	// no watchers (the marshaller writes it as a block scalar); task zz prints it
+	doc["variables"] = M{"zlast": "two lines\nthe second ends in a line break\n"}
+	doc["tasks"].(M)["zz"] = M{"command": L{"printf '[%s]' \"{{.zlast}}\" >> " + trace}}
 	switch c.val("context") {
 	case "plain":
 		doc["contexts"] = M{"cx": M{"env": M{"CE": "ce"}, "before": L{"/bin/echo ctx-before >> " + trace}}}
@@ -203,7 +207,7 @@ func CheckC16(env *core.Env, rep *core.Report) *core.Result {
 	}
 	formats := []string{"yaml", "json", "toml"}
 	var runs int64
-	cmds := [][]string{{"list"}, {"show", "main"}, {"show", "dep"}, {"graph", "p"}, {"--raw", "main"}, {"--raw", "p"}, {"--raw", "dep", "main"}}
+	cmds := [][]string{{"list"}, {"show", "main"}, {"show", "dep"}, {"graph", "p"}, {"--raw", "main"}, {"--raw", "p"}, {"--raw", "dep", "main"}, {"--raw", "zz"}}
 	core.Parallel(len(sel), 12, func(i int) {
 		c := sel[i]
 		cmds := cmds
